@@ -20,6 +20,13 @@ def generic_args(callee, idx=None):
     return None
 
 
+def _self_type_arg(callee):
+    """T of `Option::<T>::method` / `Result::<T, E>::method`"""
+    from ..mir import scan_split
+    m = re.search(r'(?:Option|Result)::<(.*)>::\w+$', callee.strip(), flags=re.S)
+    return scan_split(m.group(1))[0].strip() if m else ''
+
+
 def crate_impl(e, recv, trait, meth):
     tn = e.type_name_of(recv)
     if tn:
@@ -203,7 +210,7 @@ def _(e, c, a):
 def _(e, c, a):
     o = opt(a[0])
     if o.variant == 1: return o.f[0].v
-    return e.default_value(generic_args(c) or '')
+    return e.default_value(generic_args(c) or _self_type_arg(c))
 
 
 @model(r'Option::iter$|Option::iter_mut$|^<(std::option::)?Option<.*> as IntoIterator>::into_iter$|^<&(mut )?(std::option::)?Option<.*> as IntoIterator>::into_iter$')
@@ -304,7 +311,7 @@ def _(e, c, a):
 def _(e, c, a):
     r = res(a[0])
     if r.variant == 0: return r.f[0].v
-    return e.default_value(generic_args(c) or '')
+    return e.default_value(generic_args(c) or _self_type_arg(c))
 
 
 @model(r'Result::ok_or$')
@@ -472,12 +479,15 @@ def compare(e, x, y, ty='usize'):
     if isinstance(x, RStr) and isinstance(y, RStr):
         sx, sy = sval(x).encode(), sval(y).encode()
         return -1 if sx < sy else (0 if sx == sy else 1)
-    if isinstance(x, Struct) and isinstance(y, Struct):
+    if isinstance(x, Struct) and isinstance(y, Struct) and x.name.split('::')[-1] == 'Reverse' and len(x.f) == 1:
+        return -compare(e, x.f[0].v, y.f[0].v, ty)          # std::cmp::Reverse
+    if isinstance(x, (Struct, Enum)) and isinstance(y, type(x)):
         f = crate_impl(e, x, 'Ord', 'cmp') or crate_impl(e, x, 'PartialOrd', 'partial_cmp')
         if f is not None:
             r = un(e.run_func(f, [Ref(Cell(x)), Ref(Cell(y))]))
             if r.name == 'Option': r = r.f[0].v
             return r.variant - 1
+    if isinstance(x, Struct) and isinstance(y, Struct):
         for cx, cy in zip(x.f, y.f):
             o = compare(e, cx.v, cy.v)
             if o != 0: return o
@@ -553,7 +563,7 @@ def _(e, c, a): return Ref(Cell(a[0]), 'Arc')
 
 
 @model(r'^(std::sync::)?Arc::(strong_count|weak_count)$')
-def _(e, c, a): return 1
+def _(e, c, a): raise Unmodelled('Arc reference counts are not tracked')
 
 
 @model(r'Arc::ptr_eq$|Rc::ptr_eq$')
@@ -629,3 +639,55 @@ def _(e, c, a):
 @model(r'(?:^|::)Either(<.*>)?::(is_left|is_right)$')
 def _(e, c, a):
     v = un(a[0]); return v.variant == (0 if c.rstrip().endswith('is_left') else 1)
+
+
+@model(r'as Ord>::clamp$|^Ord::clamp$')
+def _(e, c, a):
+    ty = int_ty_of(c)
+    if compare(e, a[0], a[1], ty) < 0: return a[1]
+    if compare(e, a[0], a[2], ty) > 0: return a[2]
+    return a[0]
+
+
+@model(r'^Option::flatten$')
+def _(e, c, a):
+    o = opt(a[0]); return un(o.f[0].v) if o.variant == 1 else NONE()
+
+
+@model(r'^Option::transpose$')
+def _(e, c, a):
+    o = opt(a[0])
+    if o.variant == 0: return Ok(NONE())
+    r = res(o.f[0].v)
+    return Ok(Some(r.f[0].v)) if r.variant == 0 else Err(r.f[0].v)
+
+
+@model(r'^Result::transpose$')
+def _(e, c, a):
+    r = res(a[0])
+    if r.variant == 1: return Some(Err(r.f[0].v))
+    o = opt(r.f[0].v)
+    return Some(Ok(o.f[0].v)) if o.variant == 1 else NONE()
+
+
+# ---------------------------------------------------------------- single-threaded interior mutability (borrow flags are not tracked:
+# a double borrow_mut, which panics natively, is outside the models - none occurs in the crate)
+@model(r'^(std::cell::)?(RefCell|Cell)::new$')
+def _(e, c, a): return Struct('RefCell' if 'RefCell' in c else 'Cell', [a[0]])
+
+
+@model(r'^(std::cell::)?RefCell::(borrow|borrow_mut|get_mut)$')
+def _(e, c, a): return Ref(un(a[0]).f[0])
+
+
+@model(r'^(std::cell::)?Cell::get$')
+def _(e, c, a): return un(a[0]).f[0].v
+
+
+@model(r'^(std::cell::)?Cell::(set)$')
+def _(e, c, a):
+    un(a[0]).f[0].v = a[1]; return mk_unit()
+
+
+@model(r'^(std::cell::)?(RefCell|Cell)::into_inner$')
+def _(e, c, a): return un(a[0]).f[0].v
